@@ -584,6 +584,11 @@ fn descendant(node: dom::XmlNode) -> Vec<dom::XmlNode> {
     let mut nodes = vec![];
 
     for child in node.child_nodes().iter() {
+        // The document type declaration is not a node of the XPath data model.
+        if child.node_type() == dom::NodeType::DocumentType {
+            continue;
+        }
+
         nodes.push(child.clone());
 
         let mut desc = descendant(child);
